@@ -335,7 +335,7 @@ fn table_for(k: usize, rc: bool, keys: &[(String, u8, bool)], masks: &[u64]) -> 
             rows.insert(a.clone(), row);
         }
     }
-    Table { k, rc, names: (0..n).map(|i| format!("smp{i}")).collect(), rows }
+    Table { k, rc, names: crate::samples::odd_names(n), rows }
 }
 
 pub fn run(ctx: &Ctx, rep: &mut Report, id: &str) {
@@ -509,6 +509,7 @@ pub fn run(ctx: &Ctx, rep: &mut Report, id: &str) {
                     t[k + 1] = b'n';
                     t
                 }, g2.clone()]),
+                ("N run longer than k", vec![[&g1[..k + 3], vec![b'N'; k + 2].as_slice(), &g1[k + 3..]].concat(), g2.clone()]),
                 ("mixed case", vec![g1.iter().enumerate().map(|(i, c)| if i % 3 == 0 { c.to_ascii_lowercase() } else { *c }).collect(), g2.to_ascii_lowercase()]),
             ];
             for (rname, reference) in &references {
